@@ -166,6 +166,7 @@ def run(chk: core.Check):
         if not isinstance(ln["obs"], bool) and "[mashumaro]" not in ln["obs"]:
             chk.add(core.Violation("trace-stray", {"m": "conform-trace", **ln}, f"{ln['t']} value {ln['v']}: {ln['obs']}"))
     rej = trace_validate(chk, judged)
+    core.canary(chk, judged, trace_validate, what="Trace_Typing", skip=set(rej))
     chk.traces_accepted += len(judged) - len(rej)
     chk.evaluations += len(judged)
     for i in rej[:25]:
